@@ -24,13 +24,42 @@ PROPS = {
     'C13': {'theorems': [], 'eval_keys': ['code_objects'], 'rule': PROGRAM_RULE},
     'C09': {'theorems': [], 'eval_keys': ['code_objects'], 'rule': PROGRAM_RULE},
     'C14': {'theorems': [], 'eval_keys': ['code_objects'], 'rule': PROGRAM_RULE},
-    'C04': {'theorems': [], 'eval_keys': ['code_objects'], 'rule': 'signature shapes x function kinds x docstring shapes x optimize, plus all scopes of the program corpus'},
+    'C04': {
+        'claimed': True,
+        'level_text': "Proved for all headers (any counts/flags/variable tables with distinct parameter names): args_from_input succeeds and Args.parameters is exactly CPython's binding of co_varnames in inspect.signature order (C04_signature, against Spec.sigCore, which is itself compared with inspect.signature on the real interpreters every run). Docstring, function kind, len(args) and 'type is None for modules/classes' are decided by the correspondence and the direct oracle against inspect / function objects over all signature shapes x function kinds x docstring shapes.",'theorems': ['CDV.Props.C04.C04_signature'], 'modules': ['CDVProofs.Args', 'CDVProofs.Props.C04'], 'eval_keys': ['code_objects'], 'rule': 'signature shapes x function kinds x docstring shapes x optimize, plus all scopes of the program corpus'},
     'C10': {
+        'claimed': True,
+        'level_text': "Proved for all inputs (no bound on table length or deltas): stage 1 bytes<->rows and stage 2 collapse/expand of the line-table codec are lossless on every list of in-range rows, both formats, with collapse never raising (C10_bytes, C10_expand_collapse, C10_bytes_rows_roundtrip). Not yet theorems: stage 3 (rows <-> per-offset lines) and 'decoded line = CPython's line'; those two are decided on every run by the correspondence (model = implementation end to end on every generated and real table) together with the direct oracle against PyCode_Addr2Line on 3.7-3.10.",
         'theorems': ['CDV.Props.C10.C10_bytes', 'CDV.Props.C10.C10_expand_collapse', 'CDV.Props.C10.C10_bytes_rows_roundtrip'],
         'modules': ['CDVProofs.LineTable', 'CDVProofs.Props.C10'],
         'eval_keys': ['line_programs', 'real_tables'],
         'rule': ('abstract line programs (0-8 events, byte deltas and line deltas drawn from and around 127/128, 254/255 and multiples, '
                  'zero-byte events on <=3.9, no-line events on 3.10) assembled by an independent rendering of assemble_lnotab / assemble_line_range, '
                  'installed on a real code object; plus every table of the program corpus; distinct = distinct (table, code length)'),
+    },
+    'C05': {
+        'claimed': True,
+        'level_text': 'Proved for every CodeData (structural induction through nested code): normalize changes no public field and nothing the reading depends on - flattened instruction stream with resolved operands, jump structure, per-instruction lines, header (C05_meaning_invariant, C05_private_cleared). That the *encoded* normalized code reads the same, and that executing both behaves the same, is not a theorem (no evaluator model): it is decided by the correspondence, the direct oracle on dis readings, and execution of generated terminating programs with stdout/exception/settrace comparison on 3.7-3.10 (that part is exploration).',
+        'theorems': ['CDV.Props.C05.C05_meaning_invariant', 'CDV.Props.C05.C05_private_cleared'],
+        'modules': ['CDVProofs.Normalize', 'CDVProofs.Props.C05'],
+        'eval_keys': ['code_objects', 'executed'],
+        'rule': PROGRAM_RULE + '; plus generated terminating programs executed from the original and from the normalized code with captured stdout, exception and sys.settrace events',
+    },
+    'C06': {
+        'claimed': True,
+        'level_text': 'Proved: normalize is idempotent on every CodeData, any number of normalize calls equals one, and history stability is an induction over arbitrary operation sequences from two one-step laws (C06_idempotent, C06_normalize_history, C06_history). The two one-step laws (JSON round trip, code round trip of normalized data) enter C06_history as hypotheses; they and the canonicity over serialization variants are decided by the correspondence and the direct oracle: random histories through the real API with real json, and independently assembled table-permuted / padded / EXTENDED_ARG / CO_NESTED variants, on 3.7-3.10.',
+        'theorems': ['CDV.Props.C06.C06_idempotent', 'CDV.Props.C06.C06_normalize_history', 'CDV.Props.C06.C06_history'],
+        'modules': ['CDVProofs.Normalize', 'CDVProofs.Props.C06'],
+        'eval_keys': ['code_objects', 'histories', 'variants'],
+        'rule': PROGRAM_RULE + '; histories = random operation sequences over {normalize, code round trip, JSON round trip through json.dumps/loads}; variants = table permutations, padding, redundant EXTENDED_ARG on jumps, CO_NESTED built by an independent assembler (harness/variants.py) and checked to read the same',
+    },
+    'C11': {
+        'claimed': True,
+        'level_text': 'Proved for every flag word and every table of known flags (unbounded): a successful conversion is lossless, every combination of known flags converts, any unknown bit makes the conversion raise, and the names are exactly the set bits (C11_*). The second sentence of the property (from_code of arbitrary altered headers raises or reproduces every header field) is not yet a theorem: it is decided by the correspondence plus the direct oracle on header alterations of a family of base code objects on 3.7-3.10.',
+        'theorems': ['CDV.Props.C11.C11_flags_roundtrip', 'CDV.Props.C11.C11_known_ok', 'CDV.Props.C11.C11_unknown_raises', 'CDV.Props.C11.C11_names_exact'],
+        'modules': ['CDVProofs.Flags', 'CDVProofs.Props.C11'],
+        'eval_keys': ['flag_words', 'altered_headers'],
+        'rule': 'flag words: every single bit 0-30, all-known, all-known plus each unknown bit, random known/unknown mixtures (thorough: every subset of the known flags); header alterations: flag xor masks and argument-count deltas applied to a family of base code objects with code.replace / types.CodeType',
+        'exhaustive': {'thorough': False},
     },
 }
